@@ -7,7 +7,7 @@
 #define K 2
 #endif
 #define VF_INPUTS(X) X(double, numa, ) X(double, numb, ) X(unsigned char, ka, ) X(unsigned char, kb, ) X(unsigned char, na, ) X(unsigned char, nb, ) X(unsigned char, keya, [K]) X(unsigned char, keyb, [K]) \
-    X(unsigned char, kinda, [K]) X(unsigned char, kindb, [K]) X(int, va, [K]) X(int, vb, [K]) X(unsigned char, sa, [K]) X(unsigned char, sb, [K])
+    X(unsigned char, kinda, [K]) X(unsigned char, kindb, [K]) X(int, va, [K]) X(int, vb, [K]) X(unsigned char, sa, [K]) X(unsigned char, sb, [K]) X(unsigned char, fl, [2])
 #include "vf.h"
 #include "vf_str.h"
 #ifndef VF_LIB
@@ -58,6 +58,7 @@ static void check_wf(const cJSON *root, const cJSON *kids, unsigned cnt)
     for (i = 0; i < cnt; i++) { unsigned seen = 0; g = 0; for (c = root->child; c != 0 && g <= K; c = c->next, g++) if (c == &kids[i]) seen++; VF_AP(19, seen == 1, "C19 after a sorting utility call: same member nodes"); }
 }
 
+#define VF_FL(b) ((((b) & 2) ? cJSON_StringIsConst : 0) | (((b) & 4) ? cJSON_IsReference : 0))   /* ownership flag bits: they never change what a node means */
 static int sat(double d) { return d >= INT_MAX ? INT_MAX : d <= (double)INT_MIN ? INT_MIN : (int)d; }
 int main(VF_MAIN_ARGS)
 {
@@ -88,6 +89,7 @@ int main(VF_MAIN_ARGS)
     build(&A, ca, na, ka, IN.keya, keysa, IN.kinda, IN.va, IN.sa, stra);
     build(&B, cb, nb, kb, IN.keyb, keysb, IN.kindb, IN.vb, IN.sb, strb);
     A.valueint = 1; A.valuedouble = 1; B.valueint = 1; B.valuedouble = 1;
+    A.type |= VF_FL(IN.fl[0]); B.type |= VF_FL(IN.fl[1]);
 
     r = compare_json__real(&A, &B, 1);
     VF_AP(16, !bad_call, "C16 comparison pairs a child of a with a child of b");
